@@ -1,5 +1,5 @@
 #!/usr/bin/env python3
-"""C02 -- cross-reference resolution: newest definition wins, in every physical form (DESIGN.md 3.C02)."""
+"""C02 -- cross-reference resolution: newest definition wins, in every physical form (DESIGN.md section 4, C02)."""
 import io
 import os
 import sys
@@ -44,7 +44,7 @@ MANIFEST_ENTRY = {
             "runs on generated histories and cross-form comparison.",
     "note": "Trusted: Coq kernel, hand models tied by differential runs, harness PDF history writer. Fix 41df6ae "
             "(get_objids across /Index ranges) was needed. Object parsing at an offset is abstracted as a content map.",
-    "design_ref": "DESIGN.md 3.C02",
+    "design_ref": "DESIGN.md section 4, C02",
 }
 
 SIZES = [1, 2, 3, 4, 5, 6, 7, 16, 64, 4096]
